@@ -211,6 +211,8 @@ pub enum Profile {
     ManiaNative,
     Spinners,
     Stacked,
+    /// objects late in a very long map (beyond 2^24 ms) with tiny durations: float-precision corner
+    Late,
 }
 
 pub const ALL_PROFILES: &[Profile] = &[
@@ -226,6 +228,7 @@ pub const ALL_PROFILES: &[Profile] = &[
     Profile::ManiaNative,
     Profile::Spinners,
     Profile::Stacked,
+    Profile::Late,
 ];
 
 /// Profiles that only produce what the editor can produce (times in [0, 3h], coordinates
@@ -256,6 +259,7 @@ impl Profile {
             Profile::ManiaNative => "mania-native",
             Profile::Spinners => "spinners",
             Profile::Stacked => "stacked",
+            Profile::Late => "late",
         }
     }
 }
@@ -454,6 +458,7 @@ pub fn generate(rng: &mut Rng, opts: &GenOpts) -> OsuFile {
     let t0: f64 = match p {
         Profile::Gaps if rng.chance(0.3) => -(rng.range(1, 5000) as f64),
         Profile::Limits => *rng.pick(&[0.0, -1000.0, 1e6, 3.3554432e7, 1.0e9, 2.0e9, -2.0e9]),
+        Profile::Late => *rng.pick(&[16_777_216.0, 16_777_300.0, 33_554_432.0, 3.0e7, 5.0e7, 8.0e7, 67_108_864.0, 2.0e7]),
         Profile::Ties if rng.chance(0.3) => 0.0,
         _ => rng.range(0, 3000) as f64,
     };
@@ -550,6 +555,8 @@ pub fn generate(rng: &mut Rng, opts: &GenOpts) -> OsuFile {
                 }
             }
             (Profile::Spinners, _) => rng.weighted(&[2, 1, 8, 0]),
+            (Profile::Late, 3) => rng.weighted(&[3, 1, 1, 5]),
+            (Profile::Late, _) => rng.weighted(&[3, 3, 5, 0]),
             (Profile::Holds, _) | (Profile::ManiaNative, _) => rng.weighted(&[5, 0, 0, 5]),
             (_, 3) => rng.weighted(&[6, 1, 0, 4]),
             (Profile::SliderZoo, _) => rng.weighted(&[1, 8, 1, 0]),
@@ -614,7 +621,9 @@ pub fn generate(rng: &mut Rng, opts: &GenOpts) -> OsuFile {
                 } else {
                     *rng.pick(&[1, 1, 1, 2, 2, 3, 4])
                 };
-                let len: f64 = if zoo {
+                let len: f64 = if p == Profile::Late {
+                    *rng.pick(&[0.5, 1.0, 2.0, 5.0, 20.0, 100.0])
+                } else if zoo {
                     *rng.pick(&[0.0, 1.0, 50.0, 100.0, 500.0, 2000.0, 20000.0, -5.0, 0.5, 131072.0, 140.0])
                 } else {
                     (rng.range(2, 40) * 10) as f64 * *rng.pick(&[1.0, 1.0, 0.75, 1.75])
@@ -638,6 +647,7 @@ pub fn generate(rng: &mut Rng, opts: &GenOpts) -> OsuFile {
                 dur = match p {
                     Profile::Limits => *rng.pick(&[0.0, 1.0, 1000.0, -500.0, 1e7]),
                     Profile::Spinners => *rng.pick(&[0.0, 1.0, 50.0, 500.0, 2000.0, 10000.0]),
+                    Profile::Late => *rng.pick(&[1.0, 1.0, 2.0, 3.0, 7.0, 20.0, 50.0, 99.0, 101.0, 400.0]),
                     _ => (rng.range(1, 16) as f64) * bl * 0.5,
                 };
                 let end = t + dur;
@@ -651,6 +661,7 @@ pub fn generate(rng: &mut Rng, opts: &GenOpts) -> OsuFile {
                         k + *rng.pick(&[0.0, 0.0, 0.0, 1.0, -1.0, 0.5, 0.001])
                     }
                     Profile::Limits => *rng.pick(&[0.0, -100.0, 1e6, 50.0]),
+                    Profile::Late => *rng.pick(&[1.0, 2.0, 5.0, 30.0, 100.0]),
                     _ => (rng.range(0, 8) as f64) * bl * 0.5,
                 };
                 let end = t + dur;
